@@ -117,17 +117,20 @@ pub fn build_comb(c: Comb, srcs: &[Obs], pfx: &str, extra: &mut Extra) -> Obs {
     Comb::Merge => s0.merge(&rest),
     Comb::Concat => s0.concat(&rest),
     Comb::Zip => {
-      // adapter: tuples are flattened, items labelled with the tuple ordinal
+      // adapter: tuples are flattened, items labelled with the tuple ordinal.  The zip operator itself
+      // is built once (its state must be per subscription by its own means); only the adapter's
+      // ordinal counter lives inside `defer`
+      let z = s0.zip(&rest);
       observables::defer(move || {
-      let ctr = Arc::new(Mutex::new(0i32));
-      s0.zip(&rest).flat_map(move |v: Vec<Sym>| {
-        let b = {
-          let mut c = ctr.lock().unwrap();
-          *c += 1;
-          *c
-        };
-        observables::from_iter(v.into_iter().map(move |x| x.with_tag(b)))
-      })
+        let ctr = Arc::new(Mutex::new(0i32));
+        z.flat_map(move |v: Vec<Sym>| {
+          let b = {
+            let mut c = ctr.lock().unwrap();
+            *c += 1;
+            *c
+          };
+          observables::from_iter(v.into_iter().map(move |x| x.with_tag(b)))
+        })
       })
     }
     Comb::CombineLatest => s0.combine_latest(&rest, |v: Vec<Sym>| {
@@ -144,7 +147,9 @@ pub fn build_comb(c: Comb, srcs: &[Obs], pfx: &str, extra: &mut Extra) -> Obs {
     Comb::SequenceEqual => s0.sequence_equal(&rest).map(|b: bool| Sym::konst(b as i64)),
     Comb::SwitchOnNext => s0.switch_on_next(rest[0].clone()),
     Comb::FlatMap => {
-      // k-th outer item selects inner source 1 + (k mod 2)
+      // k-th outer item selects inner source 1 + (k mod 2); the selector's counter must be per
+      // subscription, so the whole stage sits inside `defer` (flat_map keeps no state of its own
+      // outside its StreamController)
       let inners = rest.clone();
       observables::defer(move || {
         let ctr = Arc::new(Mutex::new(0usize));
